@@ -284,9 +284,6 @@ func (s *FileSource) run() (err error) {
 
 	go s.launchReader()
 
-	// if there is a blockIndexProvider, some blocks may be skipped, so we don't check continuity here.
-	validateBlockOrder := s.blockIndexProvider == nil
-
 	var lastBlockID string
 	for {
 		select {
@@ -302,6 +299,12 @@ func (s *FileSource) run() (err error) {
 			}
 
 			s.logger.Debug("feeding from incoming file", zap.String("filename", incomingFile.filename))
+
+			// if the file is read through a block index, some blocks may be skipped, so we don't check continuity here.
+			validateBlockOrder := !incomingFile.filtered
+			if !validateBlockOrder {
+				lastBlockID = ""
+			}
 
 			for {
 				var preBlock *PreprocessedBlock
@@ -450,8 +453,8 @@ func (s *FileSource) streamReader(blockReader *DBinBlockReader, prevLastBlockRea
 		}
 	}()
 
-	// if there is a blockIndexProvider, we check continuity directly here
-	validateBlockOrder := s.blockIndexProvider != nil
+	// if the file is read through a block index, we check continuity directly here
+	validateBlockOrder := incomingBlockFile.filtered
 
 	var lastBlockID string
 	for {
